@@ -460,3 +460,100 @@ func (st *State) pendingChoice(name string, n uint64) *Term {
 }
 
 func (st *State) clearPending() { st.pend = nil; st.pendName = "" }
+
+// reach computes the set of blocks reachable from the given blocks through
+// pointers, slices, interfaces, maps, closures and reflect values.
+func (st *State) reach(start []int) map[int]bool {
+	seen := map[int]bool{}
+	var stack []int
+	push := func(b int) {
+		if b > 0 && !seen[b] && b < len(st.blocks) && st.blocks[b] != nil {
+			seen[b] = true
+			stack = append(stack, b)
+		}
+	}
+	var visit func(v Value)
+	visit = func(v Value) {
+		switch x := v.(type) {
+		case Ptr:
+			push(x.Blk)
+		case Slice:
+			push(x.P.Blk)
+		case Iface:
+			visit(x.V)
+		case MapRef:
+			push(int(x))
+		case *Closure:
+			if x != nil {
+				for _, b := range x.Bind {
+					visit(b)
+				}
+			}
+		case RValue:
+			push(x.P.Blk)
+			push(x.PtrVal.Blk)
+		case Struct:
+			for _, e := range x {
+				visit(e)
+			}
+		case Tuple:
+			for _, e := range x {
+				visit(e)
+			}
+		}
+	}
+	for _, b := range start {
+		push(b)
+	}
+	for len(stack) > 0 {
+		b := stack[len(stack)-1]
+		stack = stack[:len(stack)-1]
+		blk := st.blocks[b]
+		for _, c := range blk.Cells {
+			visit(c.V)
+		}
+		if blk.M != nil {
+			for _, e := range blk.M.Entries {
+				visit(e.K)
+				visit(e.V)
+			}
+		}
+	}
+	return seen
+}
+
+func init() {
+	// vFootprintStart(): start recording block reads/writes.
+	// vIsolated(other): since vFootprintStart, no block reachable from *other and no
+	// package-level variable was written, and every block both read here and
+	// reachable from *other is never written (shared read-only data).
+	harnessIntrinsics["vIsolated"] = func(st *State, f *Frame, c *ssa.Call, a []Value) {
+		p := a[0].(Ptr)
+		if st.fp == nil {
+			st.fail("vIsolated without vFootprintStart")
+			abort()
+		}
+		other := st.reach([]int{p.Blk})
+		ok := true
+		detail := ""
+		for b := range st.fp.Writes {
+			blk := st.block(b)
+			if blk == nil {
+				continue
+			}
+			if blk.Kind == BGlobal {
+				ok = false
+				detail = "write to package-level variable " + blk.Name
+			}
+			if other[b] {
+				ok = false
+				detail = "write to a block reachable from the other world: " + blk.Name
+			}
+		}
+		if !ok {
+			st.choices = &choiceList{"isolation: " + detail, st.choices}
+		}
+		st.fp = nil
+		ret(st, f, B(ok))
+	}
+}
